@@ -129,6 +129,9 @@ class Program:
             if self.renames:
                 self.lib = load_crate(lib_path, LIB, self.renames)
                 self.bin = load_crate(bin_path, BIN, self.renames)
+        # positive controls: analysed by the same driver, never part of prog.fns
+        cpath = os.path.join(facts_dir, "tsg_control-lib.json")
+        self.control = Crate(json.loads(open(cpath, encoding="utf-8").read()), "control") if os.path.exists(cpath) else None
         self.fns = {}
         self.fns.update(self.lib.fns)
         self.fns.update(self.bin.fns)
